@@ -239,7 +239,8 @@ Section RT.
       intros i k Hi Hk. destruct (Nat.lt_ge_cases dim 3) as [H3|H3].
       + destruct (Hsp H3) as (Hn2 & Hcol & Hoth).
         destruct (Hp 1 ltac:(lia)) as (_ & _ & _ & _ & Hsp1 & _). rewrite <- (Hpiece 1 ltac:(lia)) in Hsp1.
-        pose proof (shifted_trans_diff A dim 0 _ _ (Hsp0 H3) (Hsp1 H3)) as Htd. rewrite <- Hcol in Htd.
+        pose proof (shifted_trans_diff A dim 0 _ _ (Hsp0 H3) (Hsp1 H3)) as Htd0.
+        assert (Htd : veq (col3 (iaff r) dim) (col3 A dim)) by (rewrite Hcol; eapply veq_trans; [apply veq_map_Qred | exact Htd0]).
         destruct (Nat.eq_dec k dim) as [->|Hkd].
         * destruct (Nat.lt_ge_cases i 3) as [Hi3|Hi3].
           -- unfold col3 in Htd. inversion Htd as [|? ? ? ? E0 T0]; subst. inversion T0 as [|? ? ? ? E1 T1]; subst.
